@@ -115,6 +115,20 @@ func (h *NFSProcedureHandler) HandleCall(call *RPCCall, body io.Reader, authCtx 
 
 	go func() {
 		defer handler.policyRWMu.RUnlock()
+		// A panic in a handler or in the backing filesystem must not take the
+		// whole server down: answer SYSTEM_ERR and keep serving.
+		defer func() {
+			if r := recover(); r != nil {
+				h.server.logger.Printf("recovered panic in request handler (prog=%d proc=%d): %v",
+					call.Header.Program, call.Header.Procedure, r)
+				failed := &RPCReply{Header: call.Header, Status: MSG_ACCEPTED, AcceptStatus: SYSTEM_ERR,
+					Verifier: RPCVerifier{Flavor: 0, Body: []byte{}}}
+				select {
+				case <-ctx.Done():
+				case replyChan <- failed:
+				}
+			}
+		}()
 		select {
 		case <-ctx.Done():
 			return
